@@ -30,7 +30,8 @@ func runPeriodic(seed uint64, scale int, out string, _ string) *summary {
 	defer t.close()
 	seen := map[string]bool{}
 	rounds := 40 * scale
-	for rd := 0; rd < rounds; rd++ {
+	failures := 0
+	for rd := 0; rd < rounds && failures < 4; rd++ { // every failing round costs its whole time limit
 		clk := &tickClock{ch: make(chan time.Time)}
 		clk.now.Store([]int64{1000, 1 << 40, 1_700_000_000_000_000_000}[r.intn(3)])
 		ttl := []time.Duration{time.Millisecond, time.Second, time.Minute, 3 * time.Hour, 40 * 24 * time.Hour}[r.intn(5)]
@@ -86,6 +87,9 @@ func runPeriodic(seed uint64, scale int, out string, _ string) *summary {
 			}
 			sum.Ops += n
 			seen[fmt.Sprintf("%s/%d", ttl, kind)] = true
+		}
+		if bad {
+			failures++
 		}
 		c.StopAllGoroutines()
 		sum.Cases++
